@@ -45,14 +45,18 @@ def Body.len : Body → Nat
   | .sealed _ _ p => p.length + Generated.TAG_LEN
   | .garbage n => n
 
-/-- a datagram as `CryptoCore` sees it: key-id byte, 7 counter bytes (as a value < 2^56), body -/
+/-- a datagram as `CryptoCore` sees it: the (up to) 8 header bytes — key-id byte and 7 counter
+    bytes — and the body behind them (a datagram shorter than 8 bytes has a short `hdr` and an
+    empty garbage body) -/
 structure Dgram where
-  keyId : Nat
-  counter : Nat
+  hdr : Bytes
   body : Body
   deriving DecidableEq, Repr
 
-def Dgram.len (d : Dgram) : Nat := Generated.EXTRA_LEN + d.body.len
+def Dgram.len (d : Dgram) : Nat := d.hdr.length + d.body.len
+def Dgram.keyId (d : Dgram) : Nat := d.hdr.headD 0
+/-- the 7 transmitted counter bytes as a value `< 2^56` -/
+def Dgram.counter (d : Dgram) : Nat := Bytes.beVal ((d.hdr.drop 1).take 7)
 
 structure SlotKey where
   key : KeyRef
@@ -93,11 +97,11 @@ def new (key : KeyRef) (half : Bool) (dummy : KeyRef) (starts : List Nat) : Core
 /-- `CryptoCore::encrypt`: increment-before-use; header = key id, low 7 nonce bytes -/
 def encrypt (c : Core) (plain : Bytes) : Core × Dgram :=
   match c.slots[c.cur]? with
-  | none => (c, { keyId := c.cur, counter := 0, body := .garbage 0 })   -- unreachable: cur < 4
+  | none => (c, { hdr := [], body := .garbage 0 })   -- unreachable: cur < 4
   | some k =>
     let n := (k.send + 1) % NONCE_MOD
     ({ c with slots := c.slots.set c.cur { k with send := n } },
-     { keyId := c.cur, counter := n % CTR_MOD, body := .sealed k.key n plain })
+     { hdr := c.cur :: Bytes.ofBE 7 n, body := .sealed k.key n plain })
 
 /-- nonce reconstruction of `CryptoCore::decrypt`: bytes 1..4 zero, byte 0 = the *other* half -/
 def reconstruct (c : Core) (counter : Nat) : Nat := (if c.half then 0 else HALF) + counter
